@@ -85,7 +85,7 @@ func sig(v ssa.Value, depth int, seen map[ssa.Value]bool) string {
 				if i == 0 && fn.Signature.Recv() != nil {
 					return "recv"
 				}
-				return "param:" + x.Name()
+				return "param:" + paramName(x, i)
 			}
 		}
 		return "param:" + x.Name()
@@ -491,4 +491,57 @@ func isZeroConst(c *ssa.Const) bool {
 		return true
 	}
 	return false
+}
+
+// RefParams (set by the rules package): for the functions of the reference tree, the names and
+// types of their parameters in order. A function of the current tree that has the same name
+// and the same parameter types is rendered with the reference names, so that renaming a
+// parameter does not change any signature the rules match.
+var RefParams map[string][][2]string
+
+var paramAliasMemo = map[*ssa.Function][]string{}
+
+func paramName(p *ssa.Parameter, idx int) string {
+	fn := p.Parent()
+	names, ok := paramAliasMemo[fn]
+	if !ok {
+		names = nil
+		if ref, have := RefParams[FuncName(fn)]; have && len(ref) == len(fn.Params) {
+			same := true
+			for i, q := range fn.Params {
+				if Short(q.Type().String()) != ref[i][1] {
+					same = false
+				}
+			}
+			if same {
+				for _, r := range ref {
+					names = append(names, r[0])
+				}
+			}
+		}
+		paramAliasMemo[fn] = names
+	}
+	if names != nil && idx < len(names) && names[idx] != "" && names[idx] != "_" {
+		return names[idx]
+	}
+	return p.Name()
+}
+
+// DumpParams prints the parameter table of the loaded tree (the reference table is generated
+// from the reference tree with it).
+func DumpParams(p *Program) map[string][][2]string {
+	out := map[string][][2]string{}
+	for _, fn := range p.SrcFuncs() {
+		if fn.Parent() != nil || fn.Synthetic != "" {
+			continue
+		}
+		var ps [][2]string
+		for _, q := range fn.Params {
+			ps = append(ps, [2]string{q.Name(), Short(q.Type().String())})
+		}
+		if len(ps) > 0 {
+			out[FuncName(fn)] = ps
+		}
+	}
+	return out
 }
